@@ -71,6 +71,7 @@ def run(ck):
         for l in base:
             if l.split()[0] in ("ins", "pins", "pinsp", "rm", "erase") and ck.rng.random() < 0.3: h.append("failnext")
             h.append(l)
+            if ck.rng.random() < 0.03: h.append("newfail %d" % ck.rng.randint(0, 1))   # creating another table fails: nothing may be kept
         hist.append(["layout %d" % ck.rng.choice([0, 8, 24])] + h)
         ck.count_distinct(("hash", tuple(h)))
     for h in hist:
@@ -87,11 +88,12 @@ def run(ck):
         for l in base:
             if l.startswith("ins ") and ck.rng.random() < 0.25: h.append("insfail " + l.split()[1])
             h.append(l)
+            if ck.rng.random() < 0.03: h.append("newfail")
         hist.append(h); ck.count_distinct(("avl", tuple(h)))
     ck.kcompare("avl", exe, "c06", hist, corpus_prefix="avl", what="ZixTree under allocation faults differs from the model")
     # ---- file_equals: every pattern of refused page requests (none, both, only the first, only the second)
     srcs15 = ["h_c15.c"] + [os.path.join(REPO, "src", f) for f in ["posix/filesystem_posix.c", "system.c", "errno_status.c", "filesystem.c", "path.c", "string_view.c", "allocator.c", "posix/system_posix.c"]]
-    exe = ck.cc("h_c15", srcs15)
+    exe = ck.cc("h_c15", srcs15, flags=["-Wl,--wrap=fstat,--wrap=fstat64"])
     if not exe: return
     s15 = os.path.join(ck.work, "fs15c07"); os.makedirs(s15, exist_ok=True)
     sp = ck.write_script("page.script", ["page"])
